@@ -14,8 +14,9 @@ Definition pure_fun2 (p : value) (f : value -> value -> value) : Prop :=
   is_proc p = true /\ forall st x y, exists st', app st p [x; y] (Ok (f x y)) st' /\ keeps st st'.
 
 Definition n_map := [109;97;112].
-Definition n_proc : str := s [112;114;111;99].
-Definition n_list : str := s [108;105;115;116].
+(* the parameter names as they are in base.sld now (so that a renaming re-proves) *)
+Definition p_map_0 : str := Eval vm_compute in par n_map 0.
+Definition p_map_1 : str := Eval vm_compute in par n_map 1.
 
 Lemma map_closure : forall c, code_of n_map = Some c ->
   forall p f, pure_fun1 p f ->
@@ -28,9 +29,9 @@ Proof.
     + enter_tac. eapply evbody_last. eapply ev_if_false; [ev_simple|reflexivity|ev_simple].
     + keeps_tac.
   - cbn [vlist map].
-    start_proc st lf [(n_proc, p); (n_list, VPair x (vlist r))].
-    destruct (Hf (enter st lf [(n_proc, p); (n_list, VPair x (vlist r))]) x) as [st2 [Hcall K2]].
-    transport (enter st lf [(n_proc, p); (n_list, VPair x (vlist r))]) st2 K2.
+    start_proc st lf [(p_map_0, p); (p_map_1, VPair x (vlist r))].
+    destruct (Hf (enter st lf [(p_map_0, p); (p_map_1, VPair x (vlist r))]) x) as [st2 [Hcall K2]].
+    transport (enter st lf [(p_map_0, p); (p_map_1, VPair x (vlist r))]) st2 K2.
     assert (HL2 : has_library st2 lf) by (eapply has_library_keeps; [exact HL | keeps_tac]).
     destruct (IH st2 lf HL2) as [st3 [Hrec K3]].
     eexists. split.
@@ -53,10 +54,11 @@ Qed.
 
 (** fold-left and fold-right (minischeme's: the procedure takes the element first, the accumulator second) *)
 Definition n_fold_left := [102;111;108;100;45;108;101;102;116].
+(* the parameter names as they are in base.sld now (so that a renaming re-proves) *)
+Definition p_fold_left_0 : str := Eval vm_compute in par n_fold_left 0.
+Definition p_fold_left_1 : str := Eval vm_compute in par n_fold_left 1.
+Definition p_fold_left_2 : str := Eval vm_compute in par n_fold_left 2.
 Definition n_fold_right := [102;111;108;100;45;114;105;103;104;116].
-Definition n_f : str := s [102].
-Definition n_init : str := s [105;110;105;116].
-Definition n_seq : str := s [115;101;113].
 
 Lemma fold_left_closure : forall c, code_of n_fold_left = Some c ->
   forall p g, pure_fun2 p g ->
@@ -65,15 +67,15 @@ Lemma fold_left_closure : forall c, code_of n_fold_left = Some c ->
 Proof.
   intros c Hc. vm_compute in Hc. injection Hc as <-. intros p g [Hp Hg].
   induction l as [|x r IH]; intros init st lf HL; open_lib HL.
-  - start_proc st lf [(n_f, p); (n_init, init); (n_seq, VNil)].
-    pose proof (null_spec VNil) as Hn. call_lib Hn (enter st lf [(n_f, p); (n_init, init); (n_seq, VNil)]) lf.
+  - start_proc st lf [(p_fold_left_0, p); (p_fold_left_1, init); (p_fold_left_2, VNil)].
+    pose proof (null_spec VNil) as Hn. call_lib Hn (enter st lf [(p_fold_left_0, p); (p_fold_left_1, init); (p_fold_left_2, VNil)]) lf.
     eexists. split.
     + enter_tac. eapply evbody_last. eapply ev_if_true; [ev_simple|reflexivity|ev_simple].
     + keeps_tac.
   - cbn [vlist fold_left].
-    start_proc st lf [(n_f, p); (n_init, init); (n_seq, VPair x (vlist r))].
+    start_proc st lf [(p_fold_left_0, p); (p_fold_left_1, init); (p_fold_left_2, VPair x (vlist r))].
     pose proof (null_spec (VPair x (vlist r))) as Hn.
-    call_lib Hn (enter st lf [(n_f, p); (n_init, init); (n_seq, VPair x (vlist r))]) lf.
+    call_lib Hn (enter st lf [(p_fold_left_0, p); (p_fold_left_1, init); (p_fold_left_2, VPair x (vlist r))]) lf.
     match goal with K : keeps _ ?s2 |- _ =>
       destruct (Hg s2 x init) as [st3 [Hcall K3]]; transport s2 st3 K3
     end.
@@ -95,6 +97,10 @@ Proof.
   intros st lf HL. eapply fold_left_closure; [reflexivity|exact H|exact HL].
 Qed.
 
+(* the parameter names as they are in base.sld now (so that a renaming re-proves) *)
+Definition p_fold_right_0 : str := Eval vm_compute in par n_fold_right 0.
+Definition p_fold_right_1 : str := Eval vm_compute in par n_fold_right 1.
+Definition p_fold_right_2 : str := Eval vm_compute in par n_fold_right 2.
 Lemma fold_right_closure : forall c, code_of n_fold_right = Some c ->
   forall p g, pure_fun2 p g ->
   forall l init st lf, has_library st lf ->
@@ -102,15 +108,15 @@ Lemma fold_right_closure : forall c, code_of n_fold_right = Some c ->
 Proof.
   intros c Hc. vm_compute in Hc. injection Hc as <-. intros p g [Hp Hg].
   induction l as [|x r IH]; intros init st lf HL; open_lib HL.
-  - start_proc st lf [(n_f, p); (n_init, init); (n_seq, VNil)].
-    pose proof (null_spec VNil) as Hn. call_lib Hn (enter st lf [(n_f, p); (n_init, init); (n_seq, VNil)]) lf.
+  - start_proc st lf [(p_fold_right_0, p); (p_fold_right_1, init); (p_fold_right_2, VNil)].
+    pose proof (null_spec VNil) as Hn. call_lib Hn (enter st lf [(p_fold_right_0, p); (p_fold_right_1, init); (p_fold_right_2, VNil)]) lf.
     eexists. split.
     + enter_tac. eapply evbody_last. eapply ev_if_true; [ev_simple|reflexivity|ev_simple].
     + keeps_tac.
   - cbn [vlist fold_right].
-    start_proc st lf [(n_f, p); (n_init, init); (n_seq, VPair x (vlist r))].
+    start_proc st lf [(p_fold_right_0, p); (p_fold_right_1, init); (p_fold_right_2, VPair x (vlist r))].
     pose proof (null_spec (VPair x (vlist r))) as Hn.
-    call_lib Hn (enter st lf [(n_f, p); (n_init, init); (n_seq, VPair x (vlist r))]) lf.
+    call_lib Hn (enter st lf [(p_fold_right_0, p); (p_fold_right_1, init); (p_fold_right_2, VPair x (vlist r))]) lf.
     match goal with K : keeps _ ?s2 |- _ =>
       assert (HL2 : has_library s2 lf) by (eapply has_library_keeps; [exact HL | keeps_tac]);
       destruct (IH init s2 lf HL2) as [st3 [Hrec K3]]; transport s2 st3 K3
@@ -133,6 +139,9 @@ Qed.
 
 (** for-each: calls the procedure on every element, returns the unspecified value *)
 Definition n_for_each := [102;111;114;45;101;97;99;104].
+(* the parameter names as they are in base.sld now (so that a renaming re-proves) *)
+Definition p_for_each_0 : str := Eval vm_compute in par n_for_each 0.
+Definition p_for_each_1 : str := Eval vm_compute in par n_for_each 1.
 Lemma for_each_closure : forall c, code_of n_for_each = Some c ->
   forall p f, pure_fun1 p f ->
   forall l st lf, has_library st lf ->
@@ -144,11 +153,11 @@ Proof.
     + enter_tac. eapply evbody_last. eapply ev_if_false_none; [ev_simple|reflexivity].
     + keeps_tac.
   - cbn [vlist].
-    start_proc st lf [(n_proc, p); (n_list, VPair x (vlist r))].
-    start_proc (enter st lf [(n_proc, p); (n_list, VPair x (vlist r))]) (length (frames st)) (@nil (str * value)).
-    destruct (Hf (enter (enter st lf [(n_proc, p); (n_list, VPair x (vlist r))]) (length (frames st)) []) x)
+    start_proc st lf [(p_for_each_0, p); (p_for_each_1, VPair x (vlist r))].
+    start_proc (enter st lf [(p_for_each_0, p); (p_for_each_1, VPair x (vlist r))]) (length (frames st)) (@nil (str * value)).
+    destruct (Hf (enter (enter st lf [(p_for_each_0, p); (p_for_each_1, VPair x (vlist r))]) (length (frames st)) []) x)
       as [st3 [Hcall K3]].
-    transport (enter (enter st lf [(n_proc, p); (n_list, VPair x (vlist r))]) (length (frames st)) []) st3 K3.
+    transport (enter (enter st lf [(p_for_each_0, p); (p_for_each_1, VPair x (vlist r))]) (length (frames st)) []) st3 K3.
     assert (HL3 : has_library st3 lf) by (eapply has_library_keeps; [exact HL | keeps_tac]).
     destruct (IH st3 lf HL3) as [st4 [Hrec K4]].
     eexists. split.
